@@ -26,7 +26,20 @@ EVIDENCE_DIR = WORK / "evidence" if RUN_TAG else ROOT / "evidence"
 REPO = Path(os.environ.get("VERIF_REPO", "/repo"))
 IMPL_PY = "/venv/bin/python"
 FINDINGS_FILE = ROOT / "known_findings.json"
-NCPU = min(16, os.cpu_count() or 4)
+def _ncpu():
+    """Worker count: VERIF_NCPU if set, else the cores that are not already busy (load average), between 4 and 16 -
+    several checks (or builders) running at once must not oversubscribe the machine; only parallelism depends on it."""
+    if os.environ.get("VERIF_NCPU"):
+        return max(1, int(os.environ["VERIF_NCPU"]))
+    n = min(16, os.cpu_count() or 4)
+    try:
+        busy = int(os.getloadavg()[0])
+    except OSError:
+        busy = 0
+    return max(4, min(n, n - busy))
+
+
+NCPU = _ncpu()
 
 
 # --------------------------------------------------------------------------------------------
